@@ -2471,24 +2471,42 @@ class LazyStackedTensorDict(TensorDictBase):
             # we may want to broadcast it instead
             other = TensorDict.from_dict(other, batch_size=self.batch_size)
         if _is_tensor_collection(type(other)):
+            self_expand = self
             if other.batch_size != self.batch_size:
-                if self.ndim < other.ndim:
-                    self_expand = self.expand(other.batch_size)
-                elif self.ndim > other.ndim:
-                    other = other.expand(self.batch_size)
-                    self_expand = self
-                else:
+                try:
+                    shape = torch.broadcast_shapes(self.batch_size, other.batch_size)
+                except RuntimeError:
                     raise RuntimeError(
                         f"Could not compare tensordicts with shapes {self.shape} and {other.shape}"
                     )
-            else:
-                self_expand = self
+                if other.batch_size != shape:
+                    other = other.expand(shape)
+                if self.batch_size != shape:
+                    self_expand = self.expand(shape)
+                    if not isinstance(self_expand, LazyStackedTensorDict):
+                        # the expanded stack is dense
+                        return getattr(self_expand, comparison_str)(other)
             out = []
             for td0, td1 in _zip_strict(
                 self_expand.tensordicts, other.unbind(self_expand.stack_dim)
             ):
                 out.append(getattr(td0, comparison_str)(td1))
             return LazyStackedTensorDict.lazy_stack(out, self.stack_dim)
+        if isinstance(other, Tensor) and other.ndim:
+            # the entries of the members lack the stack dim: the tensor is broadcast against the
+            # batch dims and every member is compared with its own slice
+            shape = torch.broadcast_shapes(self.batch_size, other.shape)
+            if self.batch_size != shape:
+                return getattr(self.expand(shape), comparison_str)(other)
+            return LazyStackedTensorDict.lazy_stack(
+                [
+                    getattr(td, comparison_str)(_other)
+                    for td, _other in _zip_strict(
+                        self.tensordicts, other.expand(shape).unbind(self.stack_dim)
+                    )
+                ],
+                self.stack_dim,
+            )
         if isinstance(other, (numbers.Number, Tensor)):
             return LazyStackedTensorDict.lazy_stack(
                 [getattr(td, comparison_str)(other) for td in self.tensordicts],
